@@ -428,7 +428,10 @@ impl<'input> Parser<'input> {
                         err.is_limit() as u64,
                         err.index() as u64,
                     );
-                    self.errors.push(err);
+                    // Like `push_err`: after a limit error only limit errors are recorded.
+                    if self.accept_errors || err.is_limit() {
+                        self.errors.push(err);
+                    }
                 }
                 Ok(token) => {
                     #[cfg(apollo_rs_verif)]
